@@ -12,7 +12,7 @@ INFO = {
                    "order, ctx->self, output = &mut of a fresh Vec; R11-3 returns true exactly on the callee's Ok arm, *bool/*output written "
                    "only on that arm with the Ok payload / (ptr,len) of the very Vec passed, Vec forgotten on both arms; R11-4 "
                    "seq_atomic_operation's index is RLN::leaves_set(ctx); R11-5 constructors store Box::into_raw(Box::new(ok)) only on Ok, "
-                   "Buffer->slice is from_raw_parts(ptr,len). Equality of behaviour with the Rust API then holds by construction.",
+                   "Buffer->slice is from_raw_parts(ptr,len). Equality of behaviour with the Rust API then holds by construction. R11-6: no wrapper can panic in its own code (macro expansions and closures included): every bounds / unwrap / arithmetic obligation follows from the path's conditions, with the rln::public method opaque - a panic inside extern \"C\" aborts the process where the Rust API returns Err.",
     "not_decided": "tree-state atomicity of failed calls is delegated to C06/C08; unsafe pointer validity is the FFI contract",
     "trusted_base": ["rustc nightly type checking, trait resolution, MIR construction",
                      "unsafe primitives &*ptr, slice::from_raw_parts, Box::into_raw accepted as the FFI contract",
